@@ -278,15 +278,23 @@ def generate(rng, tier, seed):
     # characters - the length digits, the count and the reserved field included - and in block id, length and data. Whatever is
     # accepted must serialise to printable ASCII that is framed
     for k, ch in enumerate(hostile):
-        for pos in list(range(0, 16)) + [16, 17, 18, 19, 20, 22]:
-            if tier == "quick" and (k + pos) % 3 and pos not in (14, 15):
+        for pos in list(range(0, 16)) + [16, 17, 18, 19, 20, 22, 27, 30, 36]:
+            if tier == "quick" and (k + pos) % 3 and pos not in (14, 15, 30):
                 continue
             ver = "ABCD"[(k + pos) % 4]
-            base = str(make_header(rng, ver, [("KS", "abcdef")], reserved="00"))
+            base = str(make_header(rng, ver, [("KS", "abcdef"), ("T1", "uvwxyz0123"), ("T2", "qq")], reserved="00"))
             text = base[:pos] + ch + base[pos + 1:]
             c = Case("hostile-character-in-header-text", {"pos": pos, "cp": ord(ch)})
             se = Session(c, rb(rng, 16), None)
             ld = se.load(text)
+            if not ld.ok:
+                # a refused text must not leave anything behind that the object then serialises
+                r = se.str()
+                if r.ok and not all(32 <= ord(x) <= 126 for x in r.value):
+                    c.fail(f"after a header text with U+{ord(ch):04X} at position {pos} was refused, str(header) is not printable ASCII")
+                w = se.wrap(rb(rng, 16), None)
+                if w.ok and not all(32 <= ord(x) <= 126 for x in w.value):
+                    c.fail(f"after a header text with U+{ord(ch):04X} at position {pos} was refused, the object wraps to a key block that is not printable ASCII")
             if ld.ok:
                 r = se.str()
                 if r.ok and not all(32 <= ord(x) <= 126 for x in r.value):
